@@ -270,6 +270,86 @@ theorem dedupe_of_distinct (items : List (Val P S)) (h : distinctKeys C items = 
   have := foldl_insert_distinct C items [] (by simp) h
   simpa [dedupe] using this
 
+theorem pairwiseB_map {α β : Type} (r : β → β → Bool) (f : α → β) : ∀ (l : List α),
+    pairwiseB r (l.map f) = pairwiseB (fun a b => r (f a) (f b)) l
+  | [] => rfl
+  | a :: l => by simp [pairwiseB, pairwiseB_map r f l, List.all_map]; rfl
+
+theorem pairwiseB_append_singleton {α : Type} (r : α → α → Bool) (x : α) : ∀ (l : List α),
+    pairwiseB r (l ++ [x]) = (pairwiseB r l && l.all (fun a => r a x))
+  | [] => by simp [pairwiseB]
+  | a :: l => by
+    simp only [List.cons_append, pairwiseB, pairwiseB_append_singleton r x l, List.all_append, List.all_cons, List.all_nil,
+      Bool.and_true]
+    cases l.all (r a) <;> cases r a x <;> cases pairwiseB r l <;> cases l.all (fun a => r a x) <;> rfl
+
+/-- "the names differ", on the names alone -/
+def keyNe (a b : Option P) : Bool :=
+  match a, b with
+  | some x, some y => !(C.peq x y)
+  | _, _ => true
+
+theorem sameKey_keyNe (a b : Val P S) : (!(sameKey C a b)) = keyNe C (paramKey a) (paramKey b) := by
+  unfold sameKey keyNe
+  cases paramKey a <;> cases paramKey b <;> rfl
+
+theorem distinctKeys_keys (l : List (Val P S)) : distinctKeys C l = pairwiseB (keyNe C) (l.map paramKey) := by
+  rw [pairwiseB_map]
+  unfold distinctKeys
+  congr 1
+  funext a b
+  exact sameKey_keyNe C a b
+
+theorem sameKey_eq (hp : ∀ a b, C.peq a b = true ↔ a = b) (a x : Val P S) (h : sameKey C a x = true) :
+    paramKey x = paramKey a := by
+  unfold sameKey at h
+  cases ha : paramKey a with
+  | none => simp [ha] at h
+  | some u =>
+    cases hx : paramKey x with
+    | none => simp [ha, hx] at h
+    | some v =>
+      simp only [ha, hx] at h
+      rw [(hp _ _).1 h]
+
+/-- inserting into an OrderedDict keeps the names pairwise different -/
+theorem insertParam_distinct (hp : ∀ a b, C.peq a b = true ↔ a = b) (acc : List (Val P S)) (x : Val P S)
+    (h : distinctKeys C acc = true) : distinctKeys C (insertParam C acc x) = true := by
+  unfold insertParam
+  split
+  · rw [distinctKeys_keys] at h ⊢
+    have hk : (acc.map (fun a => if sameKey C a x = true then x else a)).map paramKey = acc.map paramKey := by
+      rw [List.map_map]
+      apply List.map_congr_left
+      intro a _
+      simp only [Function.comp]
+      split
+      · rename_i hs; exact sameKey_eq C hp a x hs
+      · rfl
+    rw [hk]; exact h
+  · rename_i hno
+    have hno' : acc.any (fun a => sameKey C a x) = false := by simpa using hno
+    unfold distinctKeys at h ⊢
+    rw [pairwiseB_append_singleton, h, Bool.true_and, List.all_eq_true]
+    intro a ha
+    have := (List.any_eq_false.1 hno') a ha
+    simpa using this
+
+theorem foldl_insert_keeps_distinct (hp : ∀ a b, C.peq a b = true ↔ a = b) : ∀ (items acc : List (Val P S)),
+    distinctKeys C acc = true → distinctKeys C (items.foldl (insertParam C) acc) = true
+  | [], _, h => h
+  | x :: items, acc, h => foldl_insert_keeps_distinct hp items _ (insertParam_distinct C hp acc x h)
+
+/-- what the reader builds never repeats a name -/
+theorem dedupe_distinct (hp : ∀ a b, C.peq a b = true ↔ a = b) (items : List (Val P S)) :
+    distinctKeys C (dedupe C items) = true :=
+  foldl_insert_keeps_distinct C hp items [] rfl
+
+/-- `parse_parameters_collection` is idempotent: reading what was read changes nothing -/
+theorem dedupe_idem (hp : ∀ a b, C.peq a b = true ↔ a = b) (items : List (Val P S)) :
+    dedupe C (dedupe C items) = dedupe C items :=
+  dedupe_of_distinct C _ (dedupe_distinct C hp items)
+
 end dedupe
 
 end Sarpy.Props.C05
